@@ -66,7 +66,13 @@ fn main() {
             if std::env::var("VH_LOUD").is_err() { quiet_panics(); }
             if let Some(h) = get("--history") {
                 let hseed: u64 = h.parse().expect("history seed");
-                let r = core::run_history(&core::profile(&profile), hseed, &core::exec::Config::default(), true);
+                // VH_FAULTCFG: the lighter configuration the fault workloads use for their planning run
+                let cfg = if let Ok(f) = std::env::var("VH_FAULTCFG") {
+                    core::exec::Config { audit: f.contains('a'), read_all: f.contains('r'), c06: f.contains('c'), compare_values: true }
+                } else {
+                    core::exec::Config::default()
+                };
+                let r = core::run_history(&core::profile(&profile), hseed, &cfg, true);
                 for (i, a) in r.actions.iter().enumerate() {
                     println!("{i:3} {a}");
                 }
@@ -90,7 +96,8 @@ fn main() {
         }
         "lifecycle-one" => {
             let codes: Vec<usize> = args[2].split(',').map(|c| c.parse().unwrap()).collect();
-            match wl::lifecycle::run_sequence(&codes) {
+            let invalid = args.get(3).map(|s| s.as_str()) == Some("invalid-node");
+            match wl::lifecycle::run_sequence_on(&codes, invalid) {
                 wl::lifecycle::Outcome::Violation(m) => {
                     println!("VIOLATION C10 {:?}: {m}", codes.iter().map(|c| wl::lifecycle::act(*c)).collect::<Vec<_>>());
                     1
@@ -214,7 +221,11 @@ fn main() {
         "memo-one" => {
             quiet_panics();
             let hs: u64 = args[2].parse().unwrap();
-            let o = if args.get(3).map(|s| s.as_str()) == Some("inner") { wl::memo::run_history_inner(hs) } else { wl::memo::run_history(hs) };
+            let o = match args.get(3).map(|s| s.as_str()) {
+                Some("inner") => wl::memo::run_history_inner(hs),
+                Some("rec") => wl::memo::run_history_rec(hs),
+                _ => wl::memo::run_history(hs),
+            };
             for a in &o.actions { println!("{a}"); }
             if let Some(m) = o.violation { println!("VIOLATION C20 {m}"); 1 } else { 0 }
         }
